@@ -34,7 +34,7 @@ GRAPH_ATTR = [
     # what the queries are specified against is what the user declared: an edit call that
     # records something else breaks them too
     (r"^(requires|add|update|remove)$", r".*", ["C19", "C17"]),
-    (r"^display$", r".*", ["C15", "C17", "C20"]),
+    (r"^(display|scan)$", r".*", ["C15", "C17", "C20"]),
     (r"^list$", r"^list-", ["C15", "C20"]),
 ]
 
